@@ -1,2 +1,56 @@
-(* C14 - Cache containers conform to their replacement-policy model.  Statements only. *)
-From Verif Require Import Base.Prelude Model.Caches Model.CachesSpec.
+(* C14 - Cache containers conform to their replacement-policy model.
+   Only statements here; every proof is `exact <lemma>` into Proofs/CachesFacts.v.
+   `run_ops step st ops` = list of outputs of the operation sequence, `final step st ops` = state reached.
+   All theorems quantify over EVERY operation sequence `ops` (and every type D of the unused/used duration). *)
+From Verif Require Import Base.Prelude Model.Caches Model.CachesSpec Proofs.CachesFacts.
+
+(* ---------------------------------------------------------------- LRUCache *)
+(* queue and dict stay a bijection, at most max_size entries, in every reachable state *)
+Theorem C14_lru_inv : forall D mx (ops : list (op D)), 1 <= mx ->
+  let st := final (lru_step mx) lru_empty ops in
+  NoDup (l_queue st) /\ NoDup (map fst (l_dict st))
+  /\ (forall k, In k (l_queue st) <-> In k (map fst (l_dict st)))
+  /\ length (l_dict st) <= mx.
+Proof. exact lru_inv_reachable. Qed.
+Print Assumptions C14_lru_inv.
+
+(* no operation of any sequence raises *)
+Theorem C14_lru_no_raise : forall D mx (ops : list (op D)), 1 <= mx ->
+  forallb (fun r => negb (is_raised r)) (run_ops (lru_step mx) lru_empty ops) = true.
+Proof. exact lru_no_raise. Qed.
+Print Assumptions C14_lru_no_raise.
+
+(* the outputs are exactly those of ONE recency-ordered list of at most max_size entries
+   (put/hit move a key to the most-recent end, a put into a full list drops the least recent head) *)
+Theorem C14_lru_refines : forall D mx (ops : list (op D)), 1 <= mx ->
+  run_ops (lru_step mx) lru_empty ops = run_ops (lru_spec_step mx) [] ops.
+Proof. exact lru_refines. Qed.
+Print Assumptions C14_lru_refines.
+
+(* the recency list itself: bounded, duplicate free, a resident key carries the value most recently put *)
+Theorem C14_lru_spec_sound : forall D mx (ops : list (op D)), 1 <= mx ->
+  let l := final (lru_spec_step mx) [] ops in
+  length l <= mx /\ NoDup (map fst l) /\ forall k v, lookup k l = Some v -> latest k (rev ops) = Some v.
+Proof. exact lru_spec_sound. Qed.
+Print Assumptions C14_lru_spec_sound.
+
+(* on the code model: len <= max_size; `in` is true exactly when `get` finds a value; that value is the one
+   most recently put for the key *)
+Theorem C14_lru_presence_latest : forall D mx (ops : list (op D)) k, 1 <= mx ->
+  let st := final (lru_step mx) lru_empty ops in
+  length (l_dict st) <= mx
+  /\ (amem k (l_dict st) = true <-> exists v, aget k (l_dict st) = Some v)
+  /\ (forall v, aget k (l_dict st) = Some v -> latest k (rev ops) = Some v).
+Proof. exact lru_presence_latest. Qed.
+Print Assumptions C14_lru_presence_latest.
+
+(* ---------------------------------------------------------------- SimpleCache *)
+Theorem C14_simple_is_map : forall D (ops : list (op D)),
+  run_ops simple_step [] ops = run_ops simple_spec_step [] ops.
+Proof. exact simple_is_map. Qed.
+Print Assumptions C14_simple_is_map.
+
+Theorem C14_simple_no_raise : forall D (ops : list (op D)),
+  forallb (fun r => negb (is_raised r)) (run_ops simple_step [] ops) = true.
+Proof. exact simple_no_raise. Qed.
+Print Assumptions C14_simple_no_raise.
